@@ -787,6 +787,77 @@ Qed.
 Lemma distinct_b_ok h : distinct_b h = true <-> DistinctStamps h.
 Proof. apply nodup_b_ok. Qed.
 
+(* ------------------------------------------------------------------ a history that starts with a non-empty queue *)
+Lemma pre_events_stamps q : forall t e, In e (pre_events t q) ->
+  t < inv e /\ inv e < resp e /\ resp e <= t + 2 * Z.of_nat (length q).
+Proof.
+  induction q as [|v q IH]; intros t e H; [destruct H|].
+  cbn [pre_events length] in *. destruct H as [<-|H].
+  - cbn [inv resp]. lia.
+  - apply IH in H. lia.
+Qed.
+
+Lemma pre_lin_to q0 : forall t q s', 0 <= t ->
+  (lin_to (list Z) (op Z) (out Z) fifo_step q (map to_op (pre_events t q0)) s' <-> s' = q ++ q0).
+Proof.
+  induction q0 as [|v q0 IH]; intros t q s' Ht.
+  - cbn [pre_events map]. rewrite app_nil_r. split.
+    + intros (l & HP & _ & Hs). apply Permutation_nil in HP. subst l. exact Hs.
+    + intros ->. exists []. split; [constructor|split; [exact I|reflexivity]].
+  - cbn [pre_events map].
+    set (e0 := {| inv := t + 1; resp := t + 2; who := 0; what := HEnq v |}).
+    assert (Hlater : forall p, In p (map to_op (pre_events (t + 2) q0)) ->
+              (Hist.resp (to_op e0) < Hist.inv p)%N /\ (Hist.inv (to_op e0) < Hist.resp p)%N).
+    { intros p Hp. apply in_map_iff in Hp as (e & <- & He). apply pre_events_stamps in He.
+      unfold to_op, e0. cbn [Hist.inv Hist.resp inv resp].
+      split; apply Z2N.inj_lt; lia. }
+    split.
+    + intros (l & HP & Hrt & Hs).
+      destruct (cut_split (op Z) (out Z) l [to_op e0] (map to_op (pre_events (t + 2) q0))) as (l1 & l2 & -> & P1 & P2); auto.
+      * intros p x [<-|[]] Hx. apply (Hlater x Hx).
+      * intros p [<-|[]]. unfold to_op, e0. cbn [Hist.inv Hist.resp inv resp]. apply Z2N.inj_le; lia.
+      * apply Permutation_length_1_inv in P1. subst l1. cbn [app] in *.
+        cbn [seq_to rt_ok] in Hs, Hrt. unfold to_op at 1 in Hs. cbn [Hist.call Hist.ret e0 what call_of ret_of fifo_step] in Hs.
+        destruct Hs as [_ Hs]. destruct Hrt as [_ Hrt].
+        assert (HL : lin_to (list Z) (op Z) (out Z) fifo_step (q ++ [v]) (map to_op (pre_events (t + 2) q0)) s')
+          by (exists l2; auto).
+        apply (IH (t + 2) (q ++ [v]) s') in HL; [|lia]. rewrite HL, <- app_assoc. reflexivity.
+    + intros ->.
+      assert (HL : lin_to (list Z) (op Z) (out Z) fifo_step (q ++ [v]) (map to_op (pre_events (t + 2) q0)) ((q ++ [v]) ++ q0))
+        by (apply IH; [lia|reflexivity]).
+      destruct HL as (l2 & P2 & Hrt & Hs). exists (to_op e0 :: l2). split; [now constructor|]. split.
+      * cbn [rt_ok]. split; auto. intros p Hp Hlt.
+        assert (Hp' : In p (map to_op (pre_events (t + 2) q0))) by (eapply Permutation_in; [symmetry; exact P2|exact Hp]).
+        destruct (Hlater p Hp') as [_ H2]. lia.
+      * cbn [seq_to]. unfold to_op at 1. cbn [Hist.call Hist.ret e0 what call_of ret_of fifo_step].
+        split; auto. rewrite <- app_assoc in Hs. exact Hs.
+Qed.
+
+Theorem prefix_encoding t q0 h :
+  0 <= t -> (forall e, In e h -> t + 2 * Z.of_nat (length q0) < inv e /\ inv e <= resp e) ->
+  (fifo_linearizable (pre_events t q0 ++ h) <->
+   linearizable (list Z) (op Z) (out Z) fifo_step q0 (map to_op h)).
+Proof.
+  intros Ht Hh. unfold fifo_linearizable. rewrite map_app.
+  assert (Hcut : quiescent_cut (op Z) (out Z) (map to_op (pre_events t q0) ++ map to_op h)
+                   (map to_op (pre_events t q0)) (map to_op h)).
+  { split; [reflexivity|]. split.
+    - intros p x Hp Hx. apply in_map_iff in Hp as (e & <- & He). apply in_map_iff in Hx as (e' & <- & He').
+      apply pre_events_stamps in He. destruct (Hh e' He') as [H1 H2].
+      unfold to_op. cbn [Hist.inv Hist.resp]. apply Z2N.inj_lt; lia.
+    - intros p Hp. apply in_app_or in Hp as [Hp|Hp]; apply in_map_iff in Hp as (e & <- & He);
+        unfold to_op; cbn [Hist.inv Hist.resp]; apply Z2N.inj_le.
+      + apply pre_events_stamps in He. lia.
+      + apply pre_events_stamps in He. lia.
+      + apply pre_events_stamps in He. lia.
+      + destruct (Hh e He). lia.
+      + destruct (Hh e He). lia.
+      + destruct (Hh e He). lia. }
+  rewrite (lin_segments (list Z) (op Z) (out Z) fifo_step [] _ _ _ Hcut). split.
+  - intros (s' & HL & Hlin). apply (pre_lin_to q0 t [] s' Ht) in HL. simpl in HL. subst s'. exact Hlin.
+  - intros Hlin. exists q0. split; [|exact Hlin]. apply (pre_lin_to q0 t [] q0 Ht). reflexivity.
+Qed.
+
 (* the two deciders on one recorded history *)
 Corollary aspects_b_lin_check h :
   stamped_b h = true -> unique_b h = true -> aspects_b h = true -> fifo_lin_check h = true.
@@ -812,3 +883,4 @@ Print Assumptions aspects_linearizable.
 Print Assumptions linearizable_aspects.
 Print Assumptions fifo_lin_check_correct.
 Print Assumptions checkers_agree.
+Print Assumptions prefix_encoding.
